@@ -61,7 +61,10 @@ fn history_body(src: &mut Src, st: &mut Stats) -> CaseResult {
                 // no data references at all: the result may still depend on the document (a multi-select on null is null)
                 src.pick(&["[length('abc')]", "{k: sort(`[3,1,2]`)}", "[abs(`-1`), 'x']", "to_array(`1`)", "not_null(`null`, 'd')", "[`1`, `2`] | [0]", "'lit'", "{a: 'x', b: length(`[1]`)}", "[[length('ab')]]", "length('x') && [type(`1`)]"]).to_string(),
             ),
-            4 => Some(src.pick(&["sort_by(objs, &m)", "max_by(objs, &m)", "min_by(objs, &m)", "sort_by(objs, &m) | [0]", "s == 'a b'", "o.\"k k\"", "strs[?@ == 'a b']", "`{\"a b\": 1}`.\"a b\"", "join(' , ', strs)", "nope(@)", "abs('x')", "nums[::0]", "sort_by(objs, &to_array(n))", "map(&abs(s), objs)", "objs[*].abs(s)", "length(n)", "sum(strs)"]).to_string()),
+            4 => Some(src.pick(&["sort_by(objs, &m)", "max_by(objs, &m)", "min_by(objs, &m)", "sort_by(objs, &m) | [0]", "s == 'a b'", "o.\"k k\"", "strs[?@ == 'a b']", "`{\"a b\": 1}`.\"a b\"", "join(' , ', strs)", "nope(@)", "abs('x')", "nums[::0]", "sort_by(objs, &to_array(n))", "map(&abs(s), objs)", "objs[*].abs(s)", "length(n)", "sum(strs)",
+                // by-functions whose key expression itself fails on some later element
+                "sort_by(objs, &abs(m))", "sort_by(objs, &length(m))", "max_by(objs, &abs(m))", "min_by(objs, &length(m))", "sort_by(objs, &abs(s))", "sort_by(objs, &n)[*].id", "sort_by(objs, &s)[0]", "map(&abs(m), objs)",
+                "sort_by(objs[1:], &abs(m))", "sort_by(objs, &[n][0])", "sort_by(objs, &max([n, `0`]))", "max_by(objs, &length(s))", "sort(nums)", "sort(strs)"]).to_string()),
             _ => Some(src.pick(&["sort_by(objs, &k)", "max_by(objs, &n)", "map(&length(s), objs)", "objs[?n > `0`].s", "nums[::-1]", "merge(o, o2)", "@", "keys(o)"]).to_string()),
         };
         let mut e = e.unwrap_or_else(|| "@".to_string());
